@@ -277,6 +277,14 @@ def main():
             else:
                 all_fails.append((hs, i, c))
 
+    # --- values that must not depend on the hash seed (C19): compared across the runs
+    if hasattr(mod, 'stable_values') and len(seeds) > 1:
+        base = obs_by_seed[seeds[0]]
+        for hs in seeds[1:]:
+            for i, (o0, o1) in enumerate(zip(base, obs_by_seed[hs])):
+                v0, v1 = mod.stable_values(cases[i], o0), mod.stable_values(cases[i], o1)
+                if v0 != v1:
+                    all_fails.append((hs, i, 99))
     # --- classify
     known = load_known()
     kf = [k for k in known.get('findings', []) if k['property'] == prop]
